@@ -132,7 +132,7 @@ def run(module, cfg=None, env=None, workers=None, dump=False, timeout=3600,
     workers = workers or NPROC
     run_dir = os.path.join(scratch(), f"tlc-{module}-{time.time_ns()}")
     os.makedirs(run_dir)
-    cmd = ["java", "-XX:+UseParallelGC", f"-Xmx{heap}", "-Xss64m"]
+    cmd = ["java", "-XX:+UseParallelGC", f"-Xmx{heap}", "-Xss64m", f"-Djava.io.tmpdir={run_dir}"]
     if depth_first:
         cmd.append("-Dtlc2.tool.queue.IStateQueue=StateDeque")
     cmd += ["-cp", JAR, "tlc2.TLC", "-workers", str(workers), "-metadir",
